@@ -139,6 +139,18 @@ class Evaluator(object):
         return eval(self._compile(s), ns)
 
 
+def _deep_equal(x, y, depth=0):
+    if isinstance(x, np.ndarray) or isinstance(y, np.ndarray):
+        return isinstance(x, np.ndarray) and isinstance(y, np.ndarray) and np.array_equal(x, y)
+    if hasattr(x, '__dict__') and hasattr(y, '__dict__') and depth < 4 and type(x).__module__.split('.')[0] in ('pyclifford', 'torchclifford'):
+        dx, dy = vars(x), vars(y)
+        return type(x) is type(y) and dx.keys() == dy.keys() and all(_deep_equal(dx[k], dy[k], depth + 1) for k in dx)
+    try:
+        return bool(x == y)
+    except Exception:
+        return x is y
+
+
 def _clone(v):
     if isinstance(v, np.ndarray):
         return v.copy()
@@ -197,7 +209,7 @@ def check_call(ev, contract, func, args, check_frame=True):
                     if pf in contract.modifies or pf in getattr(contract, 'modifies_scalar', ()):
                         continue
                     x, y = getattr(a, fld, None), getattr(b, fld, None)
-                    same_ = np.array_equal(x, y) if isinstance(x, np.ndarray) else x == y
+                    same_ = _deep_equal(x, y)
                     if not same_:
                         return 'fail', 'frame.%s' % pf
     if contract.returns is not None:
